@@ -82,6 +82,9 @@ pub enum Op {
     /// `ServerSetup::new_with_key` on a fresh tape with the (externally held)
     /// static key of another setup
     NewSetupWithKey { out: Id, tape: Tape, sk_from: Id },
+    /// the same setup (seed, keys) held the other way: `hsm` = behind the
+    /// external-key seam, else directly; built from the stored bytes
+    TwinSetup { out: Id, from: Id, hsm: bool },
     /// seed and fake key of `seed_from`, static key of `key_from` (public API:
     /// `ServerSetup::deserialize` of the spliced bytes)
     SpliceSetup { out: Id, seed_from: Id, key_from: Id },
@@ -114,6 +117,7 @@ impl Op {
             Op::NewSetup { .. } => "NewSetup",
             Op::NewSetupWithKey { .. } => "NewSetupWithKey",
             Op::SpliceSetup { .. } => "SpliceSetup",
+            Op::TwinSetup { .. } => "TwinSetup",
             Op::RegStart { .. } => "RegStart",
             Op::RegRespond { .. } => "RegRespond",
             Op::RegFinish { .. } => "RegFinish",
@@ -130,6 +134,7 @@ impl Op {
             Op::NewSetup { out, .. }
             | Op::NewSetupWithKey { out, .. }
             | Op::SpliceSetup { out, .. }
+            | Op::TwinSetup { out, .. }
             | Op::RegRespond { out, .. }
             | Op::RegFinish { out, .. }
             | Op::RegStore { out, .. }
@@ -173,6 +178,7 @@ impl Op {
             }
             Op::Reload { id, .. } => v.push(*id),
             Op::NewSetupWithKey { sk_from, .. } => v.push(*sk_from),
+            Op::TwinSetup { from, .. } => v.push(*from),
             Op::RegFinish { ids, .. } | Op::LoginRespond { ids, .. } | Op::LoginFinish { ids, .. } => {
                 for s in [&ids.client, &ids.server] {
                     if let IdSpec::ClientPkOf(i) | IdSpec::ServerPkOf(i) = s {
@@ -757,33 +763,24 @@ impl<'a> Exec<'a> {
             Op::NewSetup { out, tape, hsm } => {
                 let mut rng = self.tape(tape);
                 let res = if *hsm {
-                    // same tape: first the direct setup (to learn the key the
-                    // tape yields), then the HSM-backed one positioned after
-                    // the key draw
-                    let mut probe = match tape {
-                        Tape::Shared(_) => None,
-                        t => Some(self.tape(t)),
-                    };
-                    match probe.as_mut() {
-                        Some(p) => match self.s.server_setup_new(p) {
-                            Ok(direct) => {
-                                let nat = self.enc_native(&direct);
-                                if nat.len() < lens.nh + lens.nsk {
-                                    return self.skip(i, op);
-                                }
-                                let mut sk = nat[lens.nh..lens.nh + lens.nsk].to_vec();
-                                if self.w.knobs.hsm_handle {
-                                    for (i, x) in sk.iter_mut().enumerate() {
-                                        *x ^= 0x5a ^ (i as u8).wrapping_mul(29);
-                                    }
-                                }
-                                let mut skip = vec![0u8; lens.nsk];
-                                rand::RngCore::fill_bytes(&mut rng, &mut skip);
-                                self.s.server_setup_new_hsm(&mut rng, &sk)
+                    // the externally-held twin of the setup this tape yields: same seed,
+                    // same keys, the static key behind the SecretKey seam. Built from the
+                    // direct setup's stored bytes (no assumption about draw order).
+                    match self.s.server_setup_new(&mut rng) {
+                        Ok(direct) => {
+                            let mut nat = self.enc_native(&direct);
+                            if nat.len() < lens.nh + 2 * lens.nsk {
+                                let _ = self.tape_back(tape, rng);
+                                return self.skip(i, op);
                             }
-                            Err(f) => Err(f),
-                        },
-                        None => panic!("harness: hsm setup needs an own tape"),
+                            if self.w.knobs.hsm_handle {
+                                for (k, x) in nat[lens.nh..lens.nh + lens.nsk].iter_mut().enumerate() {
+                                    *x ^= 0x5a ^ (k as u8).wrapping_mul(29);
+                                }
+                            }
+                            self.s.decode(Kind::SetupHsm, Codec::Native, &nat)
+                        }
+                        Err(f) => Err(f),
                     }
                 } else {
                     self.s.server_setup_new(&mut rng)
@@ -834,6 +831,29 @@ impl<'a> Exec<'a> {
                     Err(f) => Err(f),
                 };
                 self.events.push(Event { op: i, name: op.name(), res: ev, predict: "accept".into(), draws, skipped: false, ksf_calls: vec![], hsm_calls: vec![], fault_fired: false });
+            }
+            Op::TwinSetup { out, from, hsm } => {
+                let Some(src) = self.slots.get(from) else { return self.skip(i, op) };
+                let mut nat = src.native.clone();
+                let src_handle = src.item.kind == Kind::SetupHsm && self.w.knobs.hsm_handle;
+                let dst_handle = *hsm && self.w.knobs.hsm_handle;
+                if src_handle != dst_handle && nat.len() >= lens.nh + lens.nsk {
+                    for (k, x) in nat[lens.nh..lens.nh + lens.nsk].iter_mut().enumerate() {
+                        *x ^= 0x5a ^ (k as u8).wrapping_mul(29);
+                    }
+                }
+                let res = self.s.decode(if *hsm { Kind::SetupHsm } else { Kind::Setup }, Codec::Native, &nat);
+                self.check_predict(i, "TwinSetup", &Predict::Accept, &res);
+                let ev = match res {
+                    Ok(item) => {
+                        let pk = self.s.setup_public_key(&item).unwrap_or_default();
+                        let seed = nat[..lens.nh].to_vec();
+                        let n = self.put(*out, item, Some(Meta::Setup { seed, pk: pk.clone() }));
+                        Ok(vec![("setup", Hex(n)), ("pk", Hex(pk))])
+                    }
+                    Err(f) => Err(f),
+                };
+                self.events.push(Event { op: i, name: op.name(), res: ev, predict: "accept".into(), draws: vec![], skipped: false, ksf_calls: vec![], hsm_calls: vec![], fault_fired: false });
             }
             Op::SpliceSetup { out, seed_from, key_from } => {
                 let (a, b) = match (self.slots.get(seed_from), self.slots.get(key_from)) {
